@@ -2056,6 +2056,226 @@ pub proof fn lemma_bfs_count_le<K: Ord, V>(b0: Buf<K, V>, g0: G, r0: u32, p: Seq
     vstd::set_lib::lemma_len_subset(p.to_set(), g0.ord.to_set());
 }
 
+
+// ---------------------------------------------------------------------------------------------
+// ordered export (key/array.rs): explicit-stack in-order traversal
+
+pub struct StackNode {
+    pub index: u32,
+    pub left: u32,
+    pub right: u32,
+}
+
+impl StackNode {
+    fn new<K, V>(index: u32, node: &Node<K, V>) -> (r: Self)
+        ensures r.index == index, r.left == node.left, r.right == node.right,
+    {
+        Self {
+            index,
+            left: node.left,
+            right: node.right,
+        }
+    }
+}
+
+// values of the entries visible at time t, in order
+pub open spec fn lv<K: ExpiredKey, V>(s: Seq<Entity<K, V>>, t: u64) -> Seq<V>
+    decreases s.len()
+{
+    if s.len() == 0 { Seq::empty() } else {
+        let r = lv(s.drop_last(), t);
+        if is_live(s.last(), t) { r.push(s.last().val) } else { r }
+    }
+}
+
+// a stack frame for node n: each field is either still the node's link or blanked, in the order left, index, right
+pub open spec fn frame_ok<K, V>(buf: Buf<K, V>, s: StackNode, n: int) -> bool {
+    &&& (s.left == EMPTY_REF || s.left == buf[n].left)
+    &&& (s.index == EMPTY_REF || s.index as int == n)
+    &&& (s.right == EMPTY_REF || s.right == buf[n].right)
+    &&& (s.index == EMPTY_REF ==> s.left == EMPTY_REF)
+    &&& (s.index != EMPTY_REF ==> s.right == buf[n].right)
+}
+
+// the next position to be emitted, as told by a frame
+pub open spec fn qpos(g: G, s: StackNode, n: int) -> int {
+    if s.left != EMPTY_REF { g.ng[n].a } else if s.index != EMPTY_REF { g.ng[n].pos } else if s.right != EMPTY_REF { g.ng[n].pos + 1 } else { g.ng[n].b }
+}
+
+pub open spec fn link_ok<K, V>(buf: Buf<K, V>, sp: StackNode, p: int, c: int) -> bool {
+    ||| (buf[p].left as int == c && buf[p].left != EMPTY_REF && sp.left == EMPTY_REF && sp.index != EMPTY_REF)
+    ||| (buf[p].right as int == c && buf[p].right != EMPTY_REF && sp.left == EMPTY_REF && sp.index == EMPTY_REF && sp.right == EMPTY_REF)
+}
+
+pub open spec fn trav_inv<K: ExpiredKey, V>(buf: Buf<K, V>, g: G, root: u32, stack: Seq<StackNode>, fr: Seq<int>, out: Seq<V>, time: u64) -> bool {
+    &&& stack.len() == fr.len()
+    &&& forall|k: int| 0 <= k < fr.len() ==> in_tree(buf, g, #[trigger] fr[k]) && frame_ok(buf, stack[k], fr[k])
+    &&& fr.len() > 0 ==> fr[0] == root as int
+    &&& forall|k: int| 0 <= k < fr.len() - 1 ==> #[trigger] link_ok(buf, stack[k], fr[k], fr[k + 1])
+    &&& out == lv(ents(buf, g).subrange(0, if fr.len() > 0 { qpos(g, stack.last(), fr.last()) } else { g.ord.len() as int }), time)
+}
+
+pub open spec fn trav_q(g: G, stack: Seq<StackNode>, fr: Seq<int>) -> int {
+    if fr.len() > 0 { qpos(g, stack.last(), fr.last()) } else { g.ord.len() as int }
+}
+
+// second component of the termination measure: pushes first (stack grows), pops last (stack shrinks)
+pub open spec fn trav_mu(n: int, stack: Seq<StackNode>) -> int {
+    if stack.len() == 0 { 0 } else {
+        let s = stack.last();
+        if s.left != EMPTY_REF { 2 * n + 1 - stack.len() } else if s.index != EMPTY_REF { 0 } else { stack.len() as int }
+    }
+}
+
+
+pub open spec fn fresh_frame<K, V>(buf: Buf<K, V>, c: int) -> StackNode {
+    StackNode { index: c as u32, left: buf[c].left, right: buf[c].right }
+}
+
+// descend into a pending child (left child while nothing of the top frame is done; right child after it was emitted)
+pub proof fn lemma_trav_push<K: ExpiredKey, V>(buf: Buf<K, V>, g: G, root: u32, stack: Seq<StackNode>, fr: Seq<int>, out: Seq<V>, time: u64, left: bool) -> (r: (Seq<StackNode>, Seq<int>))
+    requires
+        sinv(buf, g, root), !in_tree(buf, g, 0), trav_inv(buf, g, root, stack, fr, out, time), fr.len() > 0,
+        left ==> stack.last().left != EMPTY_REF,
+        !left ==> stack.last().left == EMPTY_REF && stack.last().index == EMPTY_REF && stack.last().right != EMPTY_REF,
+    ensures
+        ({
+            let top = stack.last(); let t = fr.len() - 1;
+            let c = if left { top.left } else { top.right };
+            let blanked = if left { StackNode { left: EMPTY_REF, ..top } } else { StackNode { right: EMPTY_REF, ..top } };
+            &&& (c as int) < buf.len() && in_tree(buf, g, c as int)
+            &&& r.0 == stack.update(t, blanked).push(fresh_frame(buf, c as int))
+            &&& r.1 == fr.push(c as int)
+        }),
+        trav_inv(buf, g, root, r.0, r.1, out, time),
+        trav_q(g, r.0, r.1) == trav_q(g, stack, fr),
+        r.1.len() <= g.ord.len(),
+{
+    let top = stack.last(); let t = fr.len() - 1; let n = fr[t];
+    let c = if left { top.left } else { top.right };
+    let blanked = if left { StackNode { left: EMPTY_REF, ..top } } else { StackNode { right: EMPTY_REF, ..top } };
+    let stack1 = stack.update(t, blanked).push(fresh_frame(buf, c as int));
+    let fr1 = fr.push(c as int);
+    reveal(sinv);
+    assert(in_tree(buf, g, n) && frame_ok(buf, stack[t], n));
+    assert(node_ok(buf, g, root, n));
+    assert(node_ok(buf, g, root, c as int));
+    assert forall|k: int| 0 <= k < fr1.len() implies in_tree(buf, g, #[trigger] fr1[k]) && frame_ok(buf, stack1[k], fr1[k]) by {
+        if k < t { assert(fr1[k] == fr[k] && stack1[k] == stack[k]); }
+        else if k == t { assert(fr1[k] == n && stack1[k] == blanked); }
+        else { assert(fr1[k] == c as int && stack1[k] == fresh_frame(buf, c as int)); }
+    }
+    assert forall|k: int| 0 <= k < fr1.len() - 1 implies #[trigger] link_ok(buf, stack1[k], fr1[k], fr1[k + 1]) by {
+        if k < t { assert(link_ok(buf, stack[k], fr[k], fr[k + 1])); assert(stack1[k] == stack[k] && fr1[k] == fr[k] && fr1[k + 1] == fr[k + 1]); }
+        else { assert(stack1[k] == blanked && fr1[k] == n && fr1[k + 1] == c as int); }
+    }
+    assert(stack1.last() == fresh_frame(buf, c as int) && fr1.last() == c as int);
+    assert(fr1[0] == fr[0]);
+    assert(trav_inv(buf, g, root, stack1, fr1, out, time));
+    lemma_trav_depth(buf, g, root, stack1, fr1, out, time, 0);
+    assert(node_ok(buf, g, root, root as int));
+    (stack1, fr1)
+}
+
+// frames are strictly nested: each frame's range is at least one larger than its child frame's
+pub proof fn lemma_trav_nested<K: ExpiredKey, V>(buf: Buf<K, V>, g: G, root: u32, stack: Seq<StackNode>, fr: Seq<int>, out: Seq<V>, time: u64, k: int)
+    requires sinv(buf, g, root), trav_inv(buf, g, root, stack, fr, out, time), 0 <= k < fr.len() - 1,
+    ensures range_len(g, fr[k]) >= range_len(g, fr[k + 1]) + 1,
+{
+    reveal(sinv);
+    assert(link_ok(buf, stack[k], fr[k], fr[k + 1]));
+    assert(in_tree(buf, g, fr[k]));
+    assert(node_ok(buf, g, root, fr[k]));
+}
+
+// hence the stack is never deeper than the number of entries
+pub proof fn lemma_trav_depth<K: ExpiredKey, V>(buf: Buf<K, V>, g: G, root: u32, stack: Seq<StackNode>, fr: Seq<int>, out: Seq<V>, time: u64, k: int)
+    requires sinv(buf, g, root), trav_inv(buf, g, root, stack, fr, out, time), 0 <= k < fr.len(),
+    ensures range_len(g, fr[k]) >= fr.len() - k, k == 0 ==> fr.len() <= g.ord.len(),
+    decreases fr.len() - k,
+{
+    reveal(sinv);
+    assert(in_tree(buf, g, fr[k]));
+    assert(node_ok(buf, g, root, fr[k]));
+    if k < fr.len() - 1 {
+        lemma_trav_nested(buf, g, root, stack, fr, out, time, k);
+        lemma_trav_depth(buf, g, root, stack, fr, out, time, k + 1);
+    }
+    if k == 0 { assert(node_ok(buf, g, root, root as int)); }
+}
+
+
+// emit the top frame's own entry (its left part is done): the output grows by that entry's value if it is live
+pub proof fn lemma_trav_emit<K: ExpiredKey, V>(buf: Buf<K, V>, g: G, root: u32, stack: Seq<StackNode>, fr: Seq<int>, out: Seq<V>, time: u64) -> (r: (Seq<StackNode>, Seq<V>))
+    requires
+        sinv(buf, g, root), !in_tree(buf, g, 0), trav_inv(buf, g, root, stack, fr, out, time), fr.len() > 0,
+        stack.last().left == EMPTY_REF, stack.last().index != EMPTY_REF,
+    ensures
+        ({
+            let top = stack.last(); let t = fr.len() - 1; let n = fr[t];
+            &&& top.index as int == n && n < buf.len()
+            &&& r.0 == stack.update(t, StackNode { index: EMPTY_REF, ..top })
+            &&& r.1 == (if is_live(buf[n].entity, time) { out.push(buf[n].entity.val) } else { out })
+        }),
+        trav_inv(buf, g, root, r.0, fr, r.1, time),
+        trav_q(g, r.0, fr) == trav_q(g, stack, fr) + 1,
+        trav_q(g, stack, fr) < g.ord.len(),
+{
+    let top = stack.last(); let t = fr.len() - 1; let n = fr[t];
+    let stack1 = stack.update(t, StackNode { index: EMPTY_REF, ..top });
+    let out1 = if is_live(buf[n].entity, time) { out.push(buf[n].entity.val) } else { out };
+    reveal(sinv);
+    assert(in_tree(buf, g, n) && frame_ok(buf, stack[t], n));
+    assert(node_ok(buf, g, root, n));
+    let q = g.ng[n].pos;
+    let e = ents(buf, g);
+    assert(g.ord[q] as int == n);
+    assert(e[q] == buf[n].entity);
+    assert(e.subrange(0, q + 1).drop_last() =~= e.subrange(0, q));
+    assert(e.subrange(0, q + 1).last() == e[q]);
+    assert forall|k: int| 0 <= k < fr.len() implies in_tree(buf, g, #[trigger] fr[k]) && frame_ok(buf, stack1[k], fr[k]) by {
+        if k < t { assert(stack1[k] == stack[k]); }
+    }
+    assert forall|k: int| 0 <= k < fr.len() - 1 implies #[trigger] link_ok(buf, stack1[k], fr[k], fr[k + 1]) by {
+        assert(link_ok(buf, stack[k], fr[k], fr[k + 1])); assert(stack1[k] == stack[k]);
+    }
+    assert(stack1.last() == (StackNode { index: EMPTY_REF, ..top }));
+    (stack1, out1)
+}
+
+// the top frame is finished: drop it; the parent frame tells the same next position
+pub proof fn lemma_trav_pop<K: ExpiredKey, V>(buf: Buf<K, V>, g: G, root: u32, stack: Seq<StackNode>, fr: Seq<int>, out: Seq<V>, time: u64)
+    requires
+        sinv(buf, g, root), !in_tree(buf, g, 0), trav_inv(buf, g, root, stack, fr, out, time), fr.len() > 0,
+        stack.last().left == EMPTY_REF, stack.last().index == EMPTY_REF, stack.last().right == EMPTY_REF,
+    ensures
+        trav_inv(buf, g, root, stack.drop_last(), fr.drop_last(), out, time),
+        trav_q(g, stack.drop_last(), fr.drop_last()) == trav_q(g, stack, fr),
+{
+    let t = fr.len() - 1; let n = fr[t];
+    let stack1 = stack.drop_last(); let fr1 = fr.drop_last();
+    reveal(sinv);
+    assert(in_tree(buf, g, n) && frame_ok(buf, stack[t], n));
+    assert(node_ok(buf, g, root, n));
+    if t > 0 {
+        let p = fr[t - 1];
+        let k0 = t - 1;
+        assert(link_ok(buf, stack[k0], fr[k0], fr[k0 + 1]));
+        assert(link_ok(buf, stack[t - 1], p, n));
+        assert(in_tree(buf, g, p) && frame_ok(buf, stack[t - 1], p));
+        assert(node_ok(buf, g, root, p));
+        assert(stack1.last() == stack[t - 1] && fr1.last() == p);
+    } else {
+        assert(node_ok(buf, g, root, root as int));
+    }
+    assert forall|k: int| 0 <= k < fr1.len() implies in_tree(buf, g, #[trigger] fr1[k]) && frame_ok(buf, stack1[k], fr1[k]) by {
+        assert(fr1[k] == fr[k] && stack1[k] == stack[k]);
+    }
+    assert forall|k: int| 0 <= k < fr1.len() - 1 implies #[trigger] link_ok(buf, stack1[k], fr1[k], fr1[k + 1]) by {
+        assert(link_ok(buf, stack[k], fr[k], fr[k + 1])); assert(stack1[k] == stack[k] && fr1[k] == fr[k] && fr1[k + 1] == fr[k + 1]);
+    }
+}
+
 // exact effect of rotate_left(x) on links, root and ghost ranges
 pub open spec fn rot_left_rel<K, V>(b1: Buf<K, V>, g1: G, r1: u32, b0: Buf<K, V>, g0: G, r0: u32, x: int) -> bool {
     let y = b0[x].right;
@@ -2960,6 +3180,124 @@ impl<K: ExpiredKey + Default, V: Copy + Default> MapTree<K, V> {
         index
     }
 
+
+    // KeyExpTree::create_ordered_list in the shape of the planned fix for F1/F2/F6:
+    // no physical purge, expired entries are filtered while traversing, the output is reserved for the entry count
+    #[inline]
+    fn create_ordered_list(&mut self, time: u64) -> (list: Vec<V>)
+        requires
+            ord_laws::<K>(),
+            wf(old(self).store.buffer@, old(self).g@, old(self).root, old(self).store.unused@),
+        ensures
+            list@ == lv(ents(old(self).store.buffer@, old(self).g@), time),
+    {
+        proof { reveal(sinv); }
+        let count = self.store.buffer.len() - self.store.unused.len() - 1;
+        let mut stack: Vec<StackNode> = Vec::with_capacity(8);
+        let mut list = Vec::with_capacity(count);
+
+        if self.root == EMPTY_REF {
+            proof { assert(ents(self.store.buffer@, self.g@) =~= Seq::<Entity<K, V>>::empty()); }
+            return list;
+        }
+
+        stack.push(StackNode::new(self.root, self.node(self.root)));
+        let ghost mut fr: Seq<int> = seq![self.root as int];
+        let ghost n = self.g@.ord.len() as int;
+        proof {
+            let buf = self.store.buffer@; let g = self.g@;
+            assert(node_ok(buf, g, self.root, self.root as int));
+            assert(ents(buf, g).subrange(0, 0) =~= Seq::<Entity<K, V>>::empty());
+            assert(stack@.last() == stack@[0] && fr.last() == self.root as int);
+            assert(trav_inv(buf, g, self.root, stack@, fr, list@, time));
+        }
+
+        while !stack.is_empty()
+            invariant
+                ord_laws::<K>(),
+                self.store.buffer@ == old(self).store.buffer@, self.g@ == old(self).g@, self.root == old(self).root, self.store.unused@ == old(self).store.unused@,
+                wf(self.store.buffer@, self.g@, self.root, self.store.unused@),
+                n == self.g@.ord.len(),
+                trav_inv(self.store.buffer@, self.g@, self.root, stack@, fr, list@, time),
+                fr.len() <= n, trav_q(self.g@, stack@, fr) <= n,
+                // at the loop head the top frame never waits for its right child after having been emitted
+                stack@.len() > 0 ==> (stack@.last().index == EMPTY_REF ==> stack@.last().right == EMPTY_REF),
+            decreases n - trav_q(self.g@, stack@, fr), trav_mu(n, stack@),
+        {
+            let ghost buf = self.store.buffer@; let ghost g = self.g@;
+            let ghost st0 = stack@;
+            proof { lemma_trav_depth(buf, g, self.root, st0, fr, list@, time, 0); }
+            let last_stack_index = stack.len() - 1;
+            let s = &mut stack[last_stack_index];
+
+            if s.left != EMPTY_REF {
+                // go down left
+                let index = s.left;
+                // to skip next time
+                s.left = EMPTY_REF;
+                proof { let r = lemma_trav_push(buf, g, self.root, st0, fr, list@, time, true); }
+
+                stack.push(StackNode::new(index, self.node(index)));
+                proof {
+                    let r = lemma_trav_push(buf, g, self.root, st0, fr, list@, time, true); fr = r.1; assert(stack@ =~= r.0);
+                    assert(trav_q(g, stack@, fr) == trav_q(g, st0, fr.drop_last()));
+                    assert(stack@.last() == fresh_frame(buf, index as int));
+                    assert(trav_mu(n, stack@) < trav_mu(n, st0));
+                }
+            } else {
+                let ghost mut st1 = st0;
+                let ghost out0 = list@;
+                if s.index != EMPTY_REF {
+                    let index = s.index;
+                    // to skip next time
+                    s.index = EMPTY_REF;
+                    proof { let r = lemma_trav_emit(buf, g, self.root, st0, fr, out0, time); }
+
+                    let node = self.node(index);
+
+                    if node.entity.key.expiration() > time {
+                        list.push(node.entity.val);
+                    }
+                    proof { let r = lemma_trav_emit(buf, g, self.root, st0, fr, out0, time); st1 = r.0; assert(list@ == r.1); assert(trav_q(g, st1, fr) == trav_q(g, st0, fr) + 1); }
+                }
+
+                if s.right != EMPTY_REF {
+                    // go down right
+                    let index = s.right;
+                    // to skip next time
+                    s.right = EMPTY_REF;
+                    proof { let r = lemma_trav_push(buf, g, self.root, st1, fr, list@, time, false); }
+
+                    stack.push(StackNode::new(index, self.node(index)));
+                    proof {
+                        let fr0 = fr;
+                        let r = lemma_trav_push(buf, g, self.root, st1, fr, list@, time, false); fr = r.1; assert(stack@ =~= r.0);
+                        assert(trav_q(g, stack@, fr) == trav_q(g, st1, fr0));
+                        assert(st1 != st0);
+                        assert(trav_q(g, stack@, fr) == trav_q(g, st0, fr0) + 1);
+                    }
+                } else {
+                    // go up
+                    stack.pop();
+                    proof {
+                        let fr0 = fr;
+                        lemma_trav_pop(buf, g, self.root, st1, fr, list@, time); fr = fr.drop_last(); assert(stack@ =~= st1.drop_last());
+                        if fr0.len() > 1 {
+                            let k0 = fr0.len() - 2;
+                            assert(link_ok(buf, st1[k0], fr0[k0], fr0[k0 + 1]));
+                            assert(stack@.last() == st1[k0]);
+                        }
+                        assert(trav_q(g, stack@, fr) == trav_q(g, st1, fr0));
+                        if st1 == st0 { assert(trav_q(g, stack@, fr) == trav_q(g, st0, fr0)); assert(trav_mu(n, stack@) < trav_mu(n, st0)); }
+                        else { assert(trav_q(g, stack@, fr) == trav_q(g, st0, fr0) + 1); }
+                    }
+                }
+            }
+        }
+        proof { assert(ents(self.store.buffer@, self.g@).subrange(0, n) =~= ents(self.store.buffer@, self.g@)); }
+
+        list
+    }
 
     // KeyExpTree::search_first_less
     #[inline]
